@@ -88,6 +88,17 @@ CLAIMED = {
              "across chunkings is not decided.",
         technique="syntax/dataflow rules on ast, boolean-mask abstract evaluation, package-wide RNG discipline rule",
         ref="5 C09"),
+    "C10": dict(
+        text="Schedule- and chunking-independence is decided by excluding the code patterns that make results schedule-dependent, for every "
+             "interleaving at once: dask task entries are discovered from the source (33 sites), the task-reachable set is closed over the resolved "
+             "call graph, and an effect analysis reports any field that task-reachable code both inserts into and iterates without an atomic "
+             "snapshot or lock; cache-key classes must have __eq__ consistent with __hash__; the global default backend may only be written by "
+             "functions no task reaches; callers of lru_cache functions may not mutate the cached result; declared lazy shapes must come from the "
+             "same source as the produced shape (for landscapes: a probe of the same callee with the same arguments, otherwise a symbolic "
+             "comparison with the shape each model family produces). No schedule is explored and bitwise floating-point equality across "
+             "chunkings is not decided.",
+        technique="call-graph reachability from discovered task entries + effect analysis (shared-state conflict rule), hash/eq rule, cached-result immutability rule, lazy-shape source rule with symbolic shapes",
+        ref="5 C10"),
 }
 
 NOT_APPLICABLE = {
